@@ -304,7 +304,20 @@ func (r *Run) walkFields(fn *Func, info *types.Info, x ast.Expr, write bool, f f
 				switch obj.Type().Underlying().(type) {
 				case *types.Map, *types.Slice, *types.Pointer:
 					if ds, ok := fn.Defs().singleDef(obj); ok && ds.kind == "assign" && !ds.multi && ds.rhs != nil {
-						if se, ok := ast.Unparen(ds.rhs).(*ast.SelectorExpr); ok {
+						// the field itself, or an inner container below it (m := recv.f[k]: m is the inner map)
+						base := ast.Unparen(ds.rhs)
+						for {
+							if ix, ok := base.(*ast.IndexExpr); ok {
+								base = ast.Unparen(ix.X)
+								continue
+							}
+							if sl, ok := base.(*ast.SliceExpr); ok {
+								base = ast.Unparen(sl.X)
+								continue
+							}
+							break
+						}
+						if se, ok := base.(*ast.SelectorExpr); ok {
 							if sel, ok := info.Selections[se]; ok && sel.Kind() == types.FieldVal {
 								r.walkFields(fn, info, se, write, f)
 							}
